@@ -272,6 +272,22 @@ theorem randombytes_key_length (st : Model.St) (hE : ∀ v, v.length = 16 → (E
   simp only
   exact update_key_length E st.key hE _ g3
 
+theorem update_some_lengths (key : List UInt8) (hE : ∀ v, v.length = 16 → (E key v).length = 16) (p v : List UInt8)
+    (hv : v.length = 16) (hp : p.length = 48) :
+    (Model.update E (some p) key v).1.length = 32 ∧ (Model.update E (some p) key v).2.length = 16 := by
+  have h1 := incV_length v hv
+  have h2 := incV_length _ h1
+  have h3 := incV_length _ h2
+  unfold Model.update
+  simp [xorBytes, hE _ h1, hE _ h2, hE _ h3, hp]
+
+theorem init_lengths (hE : ∀ v, v.length = 16 → (E (List.replicate 32 0) v).length = 16) (entropy : List UInt8)
+    (he : 48 ≤ entropy.length) :
+    (Model.init E entropy none).key.length = 32 ∧ (Model.init E entropy none).v.length = 16 := by
+  have := update_some_lengths E (List.replicate 32 0) hE (entropy.take 48) (List.replicate 16 0) (by simp) (by simp; omega)
+  unfold Model.init
+  exact this
+
 /-- every history of the model is the specification's history (block cipher with 16-byte blocks on 32-byte keys) -/
 theorem run_refines (hE : ∀ k v, k.length = 32 → v.length = 16 → (E k v).length = 16) (st : Model.St)
     (hk : st.key.length = 32) (hv : st.v.length = 16) (reqs : List Nat) :
